@@ -45,8 +45,13 @@ def write(env, build_inputs):
     rule_handler.run(build_inputs.edges(), build_inputs, buildfile, env)
     post_rules_hook.run(build_inputs, buildfile, env)
 
-    with open(filepath.string(env.base_dirs), 'w') as out:
+    # Write to a temporary file and rename it into place, so that an
+    # interrupted run never leaves a truncated (but seemingly up-to-date) build
+    # file behind.
+    filename = filepath.string(env.base_dirs)
+    with open(filename + '.tmp', 'w') as out:
         buildfile.write(out)
+    os.replace(filename + '.tmp', filename)
 
 
 def flags_vars(name, value, buildfile):
